@@ -97,29 +97,33 @@ Max(a, b) == IF a >= b THEN a ELSE b
 (* argument check of one subarray request (relaxed coordinate bounds, the default build):
    first error in the documented order, "NC_NOERR" if the request is legal *)
 DimLen(v, d, isread) == IF d = 1 /\ IsRec(v) THEN (IF isread THEN numrecs ELSE 1000000) ELSE Shape(v)[d]
-SubErr(v, s, isread) ==
+(* The acceptable codes of one subarray request.  NC_EINVALCOORDS takes precedence over NC_EEDGE over NC_ESTRIDE
+   (documented); no precedence is documented between NC_ENEGATIVECNT and NC_EEDGE: either, when both apply. *)
+SubErrs(v, s, isread) ==
     LET n == Rank(v)
-        badcoord == {d \in 1..n : s.start[d] < 0 \/ s.start[d] > DimLen(v, d, isread)
-                                  \/ (s.start[d] = DimLen(v, d, isread) /\ s.count[d] > 0)}
+        L(d) == DimLen(v, d, isread)
+        badcoord == {d \in 1..n : s.start[d] < 0 \/ s.start[d] > L(d) \/ (s.start[d] = L(d) /\ s.count[d] > 0)}
         negcnt   == {d \in 1..n : s.count[d] < 0}
-        edge     == {d \in 1..n : s.count[d] > 0 /\ s.stride[d] > 0 /\
-                                  s.start[d] + (s.count[d] - 1) * s.stride[d] >= DimLen(v, d, isread)}
+        edge     == {d \in 1..n : s.count[d] > L(d) \/ s.start[d] + s.count[d] > L(d)
+                                  \/ (s.count[d] > 0 /\ s.start[d] + (s.count[d] - 1) * s.stride[d] >= L(d))}
         badstr   == {d \in 1..n : s.stride[d] <= 0}
-    IN  IF badcoord # {} THEN "NC_EINVALCOORDS"
-        ELSE IF negcnt # {} THEN "NC_ENEGATIVECNT"
-        ELSE IF edge # {} THEN "NC_EEDGE"
-        ELSE IF badstr # {} THEN "NC_ESTRIDE"
-        ELSE "NC_NOERR"
+    IN  IF badcoord # {} THEN {"NC_EINVALCOORDS"}
+        ELSE IF negcnt # {} \/ edge # {}
+          THEN (IF negcnt # {} THEN {"NC_ENEGATIVECNT"} ELSE {}) \cup (IF edge # {} THEN {"NC_EEDGE"} ELSE {})
+        ELSE IF badstr # {} THEN {"NC_ESTRIDE"}
+        ELSE {"NC_NOERR"}
 
-RECURSIVE FirstErr(_)
-FirstErr(es) == IF es = <<>> THEN "NC_NOERR" ELSE IF Head(es) # "NC_NOERR" THEN Head(es) ELSE FirstErr(Tail(es))
-ReqErr(r, isread) == FirstErr(AsSeq([i \in 1..Len(r.subs) |-> SubErr(r.v, r.subs[i], isread)]))
+RECURSIVE FirstErrs(_)
+FirstErrs(es) == IF es = <<>> THEN {"NC_NOERR"} ELSE IF Head(es) # {"NC_NOERR"} THEN Head(es) ELSE FirstErrs(Tail(es))
+ReqErrs(r, isread) == FirstErrs(AsSeq([i \in 1..Len(r.subs) |-> SubErrs(r.v, r.subs[i], isread)]))
+(* one representative (used by the generators) *)
+ReqErr(r, isread) == CHOOSE e \in ReqErrs(r, isread) : TRUE
 
 (***************************************************************************)
 (* Blocking access                                                         *)
 (***************************************************************************)
 BPut(r, tok, rc) ==
-    /\ rc = ReqErr(r, FALSE)
+    /\ rc \in ReqErrs(r, FALSE)
     /\ IF rc = "NC_NOERR"
          THEN /\ data' = WriteSeq(data, r.v, Elems(r), tok)
               /\ numrecs' = Max(numrecs, MaxRec(r) + 1)
@@ -130,7 +134,7 @@ BPut(r, tok, rc) ==
 (* expected content of the read buffer; U entries are unconstrained *)
 BGetExpect(r) == ReadSeq(data, r.v, Elems(r))
 BGet(r, rc) ==
-    /\ rc = ReqErr(r, TRUE)
+    /\ rc \in ReqErrs(r, TRUE)
     /\ UNCHANGED state
     /\ hist' = H([c |-> "get", r |-> r, rc |-> rc])
 
@@ -147,8 +151,8 @@ Used == LET idx == {i \in 1..Len(Q) : Q[i].kind = "bput"} IN
 
 Post(kind, lab, r, tok, rc) ==
     /\ lab \notin Labels
-    /\ LET e == ReqErr(r, kind = "iget") IN
-       IF e # "NC_NOERR" THEN rc = e /\ UNCHANGED state
+    /\ LET es == ReqErrs(r, kind = "iget") IN
+       IF es # {"NC_NOERR"} THEN rc \in es /\ UNCHANGED state
        ELSE IF kind = "bput" /\ abuf.size < 0 THEN rc = "NC_ENULLABUF" /\ UNCHANGED state
        ELSE IF kind = "bput" /\ abuf.size - abuf.used < Bytes(r) THEN rc = "NC_EINSUFFBUF" /\ UNCHANGED state
        ELSE /\ rc = "NC_NOERR"
